@@ -8,6 +8,7 @@ From PV Require Import Extract.ApiPel.
 From PV Require Extract.ApiCli.
 From PV Require Extract.ApiHw.
 From PV Require Extract.ApiTrace.
+From PV Require Extract.ApiDump.
 Import ListNotations.
 Open Scope N_scope.
 
@@ -38,4 +39,5 @@ Definition run (cmd : text) (args : list bytes) : text :=
        match ApiCli.run_cli cmd args with Some t => t | None =>
        match run_io cmd args with Some t => t | None =>
        match ApiTrace.run_trace cmd args with Some t => t | None =>
-       match ApiHw.run_hw cmd args with Some t => t | None => L """unknown command""" end end end end end.
+       match ApiHw.run_hw cmd args with Some t => t | None =>
+       match ApiDump.run_dump cmd args with Some t => t | None => L """unknown command""" end end end end end end.
